@@ -1,10 +1,10 @@
 package checks
 
 import (
-	"sync/atomic"
 	"fmt"
 	"math/rand"
 	"sync"
+	"sync/atomic"
 	"time"
 
 	txfile "github.com/elastic/go-txfile"
@@ -202,6 +202,8 @@ func CheckC06(r *core.Run) {
 			defer func() { <-sem }()
 			done := make(chan struct{})
 			c.Tick = new(int64)
+			var henv *qenv.Env
+			c.EnvOut = &henv
 			go func() {
 				defer close(done)
 				tr, env := runQueueHistoryIO(c)
@@ -216,8 +218,12 @@ func CheckC06(r *core.Run) {
 			}()
 			switch core.WatchRun(c.Tick, done, 120*time.Second, 60*time.Minute) {
 			case "hang": // neither an operation nor the draining of a crash image returned for 2 minutes
+				var evs []core.Event
+				if henv != nil { // keep what was recorded up to there
+					evs = henv.Events()
+				}
 				mu.Lock()
-				traces[i] = &core.Trace{Name: c.Name, Meta: c.String(), Events: []core.Event{{"ev": "Hang"}}}
+				traces[i] = &core.Trace{Name: c.Name, Meta: c.String(), Events: append(evs, core.Event{"ev": "Hang"})}
 				mu.Unlock()
 			case "timeout":
 				r.Break("crash exploration of %s did not finish within the budget (it kept making progress)", c.Name)
